@@ -166,11 +166,16 @@ def check_entries(tbl, data, consumed, ents):
                 nodes = cands if kind == "leaf" else [e for l in cands for e in l.items]
                 if sv[0] in ("M", "L") and any(s[n.a + 1:n.b - 1] == sv[1] and n.kind in "ild" for n in nodes):
                     verdicts.append("rawtype")
+                elif any(G.stored_matches(s, n, sv) for n in alias_nodes(root, key)):
+                    verdicts.append("alias")
         if "exact" in verdicts:
             continue
         if "nul" in verdicts:
             bad.append(("static-map-key-nul-truncated",
                         "entry %d holds the value of an input key that only matches the table key after truncation at an embedded NUL" % idx))
+        elif "alias" in verdicts:
+            bad.append(("static-map-key-separator-alias",
+                        "entry %d holds the value of an input key that contains the table's path syntax ('::', '[]', '*') literally" % idx))
         elif "rawtype" in verdicts:
             bad.append(("raw-map-type-liberal",
                         "entry %d holds a raw_map/raw_list view of a value that is not a dictionary/list (is_raw_map tests >= 'd')" % idx))
@@ -178,6 +183,31 @@ def check_entries(tbl, data, consumed, ents):
             bad.append(("static-map-value-not-denoted",
                         "entry %d holds a value that no part of the input named by its table key denotes" % idx))
     return bad
+
+
+def alias_nodes(root, key):
+    """Used ONLY to name the class of a violation: the values reachable when input keys are
+    concatenated into the flat C string the reader compares with the table key (so that an input
+    key spelling 'm::ut_pex' or 'e[]' literally reaches the entries of those table rows)."""
+    out = []
+
+    def walk(d, prefix, depth):
+        if d.kind != "d" or depth > 9:
+            return
+        for k, v in d.items:
+            cs = prefix + k.split(b"\x00", 1)[0]
+            if not key.startswith(cs) or not cs:
+                continue
+            rest = key[len(cs):]
+            if rest == b"" or rest[:1] == b"*":
+                out.append(v)
+            elif rest[:2] == b"::":
+                walk(v, cs + b"::", depth + 1)
+            elif rest[:2] == b"[]" and v.kind == "l":
+                out.extend(v.items)
+
+    walk(root, b"", 0)
+    return out
 
 
 def B_depth(s):
